@@ -150,6 +150,20 @@ def build(d, rw):
         c2 = (-lhs2 <= -b2)
     else:
         c2 = (lhs2 >= b2)
+    # ---- a VECTOR-valued robust row (several rows dualised in one call); 'loops' writes it entry by entry, 'cmp_flip' /
+    #      'cmp_neg' move it across the comparison.  With zero bounds on some components of z only, the rows of the dualised
+    #      set have different senses per random component
+    B3 = A([[1.0, -0.5], [-1.0, 1.5], [0.5, 2.0]])
+    d3 = A([0.5, -0.25, 1.0])
+    b3 = A([3.5, 4.0, 5.0])
+    if 'loops' in rw:
+        c3 = [x[i] + B3[i, 0] * z[0] + B3[i, 1] * z[1] + d3[i] <= b3[i] for i in range(3)]
+    elif 'cmp_flip' in rw:
+        c3 = [b3 >= x + B3 @ z + d3]
+    elif 'cmp_neg' in rw:
+        c3 = [-(x + B3 @ z + d3) >= -b3]
+    else:
+        c3 = [x + B3 @ z + d3 <= b3]
     # ---- deterministic equality
     lhe = (A(d['e']) * x).sum()
     if 'eq_split' in rw:
@@ -176,10 +190,10 @@ def build(d, rw):
         F = m.ambiguity()
         F.suppset(*set_args)
         (m.minsup if sense == 'min' else m.maxinf)(obj, F)
-        rob = [c1, c2]
+        rob = [c1, c2] + c3
     else:
         (m.minmax if sense == 'min' else m.maxmin)(obj, *set_args)
-        rob = [c1, c2]
+        rob = [c1, c2] + c3
     allc = rob + ce + cb
     if perm:
         allc = list(reversed(allc))
@@ -226,7 +240,29 @@ def run_case(case, ses):
     st0, v0, P0 = exact_value(ses, m0, m0.sign)
     ses.stats.programs += 1
     if st0 != 'optimal':
+        # an infeasible / unbounded base model: every rewrite must have the same status (equivalent ways of writing a model
+        # agree on infeasibility too - a rewrite that alone is solvable shows that one of the two programs is wrong)
         ses.stats.kinds['base-not-optimal'] = ses.stats.kinds.get('base-not-optimal', 0) + 1
+        if st0 == 'unknown':
+            return
+        for rw in case['sets']:
+            with quiet():
+                m, sign, flip = build(d, rw)
+            st, v, P = exact_value(ses, m, m.sign)
+            ses.stats.programs += 1
+            ses.stats.obligations += 1
+            ses.stats.kinds['status-equal'] = ses.stats.kinds.get('status-equal', 0) + 1
+            if st == 'unknown':
+                ses.stats.undecided += 1
+            elif st != st0:
+                data = dict(seed=case['seed'], rw=rw, base=st0, variant=str(v), status=st, status_only=True)
+                if replay(data):
+                    finding(ses, 'C15:%s:status' % '+'.join(rw), '%s: the base model is %s, its rewrite %s is %s (%s)'
+                            % (name, st0, rw, st, v), data, 'rsv.props.c15:replay')
+                else:
+                    raise HarnessError('C15 status difference does not reproduce with the real solver: %s/%s' % (name, rw))
+            else:
+                ses.stats.discharged += 1
         return
     allok = True
     for rw in case['sets']:
@@ -293,4 +329,6 @@ def replay(data, verbose=False):
         b = None
     if verbose:
         print('base model optimum %r ; rewrite %s gives %r (sign-corrected)' % (a, data['rw'], b))
+    if data.get('status_only'):
+        return (a is None) != (b is None)
     return a is None or b is None or abs(a - b) > 1e-6 * (1 + abs(a))
